@@ -417,14 +417,17 @@ func valueGuards(at ssa.Instruction, fromSrc func(ssa.Value) bool, isSrcField fu
 	return out
 }
 
-func (k *checker) persist1(pt pairType) {
-	rep := k.rep(pt.toFn.Pos())
+// schemaObject finds the local schema struct a ToJSON marshals: built in ToJSON itself, or
+// in a receiver helper (`json.Marshal(pn.schemaOf())`) whose result it is. It returns the
+// function that builds it, the object and the instruction by which it must be complete.
+func (k *checker) schemaObject(pt pairType) (*ssa.Function, *ssa.Alloc, ssa.Instruction) {
 	pkg := pt.named.Obj().Pkg()
-	om := objModel{}
-
-	// ---- ToJSON: the local schema object handed to the marshaller
 	var obj *ssa.Alloc
-	var sink ssa.CallInstruction
+	var sink ssa.Instruction
+	isSchema := func(t types.Type) bool {
+		_, ok := schemaStructOf(t, pkg, pt.named)
+		return ok
+	}
 	ssau.AllInstrs(pt.toFn, func(in ssa.Instruction) {
 		c, ok := in.(ssa.CallInstruction)
 		if !ok || obj != nil {
@@ -432,21 +435,55 @@ func (k *checker) persist1(pt pairType) {
 		}
 		for _, a := range c.Common().Args {
 			if ld, ok := flow.StripAll(a).(*ssa.UnOp); ok && ld.Op == token.MUL {
-				if al, ok := ld.X.(*ssa.Alloc); ok {
-					if _, ok := schemaStructOf(al.Type().(*types.Pointer).Elem(), pkg, pt.named); ok {
-						obj, sink = al, c
-						return
-					}
-				}
-			}
-			if al, ok := flow.StripAll(a).(*ssa.Alloc); ok {
-				if _, ok := schemaStructOf(al.Type().(*types.Pointer).Elem(), pkg, pt.named); ok {
+				if al, ok := ld.X.(*ssa.Alloc); ok && isSchema(al.Type().(*types.Pointer).Elem()) {
 					obj, sink = al, c
 					return
 				}
 			}
+			if al, ok := flow.StripAll(a).(*ssa.Alloc); ok && isSchema(al.Type().(*types.Pointer).Elem()) {
+				obj, sink = al, c
+				return
+			}
 		}
 	})
+	if obj != nil {
+		return pt.toFn, obj, sink
+	}
+	// built by a helper of the receiver
+	var body *ssa.Function
+	recv := pt.toFn.Params[0]
+	ssau.AllInstrs(pt.toFn, func(in ssa.Instruction) {
+		c, ok := in.(*ssa.Call)
+		if !ok || obj != nil || c.Common().IsInvoke() || !isSchema(c.Type()) {
+			return
+		}
+		if len(c.Common().Args) == 0 || c.Common().Args[0] != ssa.Value(recv) {
+			return
+		}
+		cal := flow.Callee(c)
+		if cal == nil {
+			return
+		}
+		g := k.c.P.SSA.FuncValue(cal)
+		if g == nil || g.Blocks == nil {
+			return
+		}
+		for _, s := range flow.ReturnSites(g, 0) {
+			if a := localStructOf(s.Val); a != nil {
+				body, obj, sink = g, a, s.Ret
+			}
+		}
+	})
+	return body, obj, sink
+}
+
+func (k *checker) persist1(pt pairType) {
+	rep := k.rep(pt.toFn.Pos())
+	pkg := pt.named.Obj().Pkg()
+	om := objModel{}
+
+	// ---- ToJSON: the local schema object handed to the marshaller
+	toBody, obj, sink := k.schemaObject(pt)
 	if obj == nil {
 		rep.undecide("PERSIST-1", pt.key+".ToJSON", pt.toFn.Pos(), "no local schema struct handed to a marshalling call found")
 		return
@@ -471,7 +508,7 @@ func (k *checker) persist1(pt pairType) {
 				continue
 			}
 			feasible++
-			rf := k.recvFieldsRead(pt.toFn, w.val, 3)
+			rf := k.recvFieldsRead(toBody, w.val, 3)
 			if len(rf) > 0 {
 				fromRecv++
 			}
